@@ -237,7 +237,10 @@ def run(tier, seed, replay):
                  # a brace right before a binding; a path that still ends in the suffix after the parser took one off
                  "a&#123;{{c}}", "<v a=\"p&#123;{{c}}\"/>", "a{{ '{' }}{{c}}", "{{c}}&#123;{{d}}", "a&#125;}{{c}}",
                  "<import src=\"a.wxml.wxml\"/><template is=\"t\"/>", "<include src=\"./b.wxml.wxml\"/>",
-                 "<wxs module=\"m\" src=\"c.wxs.wxs\"/>{{m.x}}"]
+                 "<wxs module=\"m\" src=\"c.wxs.wxs\"/>{{m.x}}",
+                 # children that print as nothing; static braces that only a comment keeps apart
+                 "<div>{{ \"\" }}</div>", "<div><!-- c -->{{ '' }}<!-- d --></div>x", "<template name=\"a\"><!-- c --></template><template is=\"a\"/>",
+                 "<v>a{<!---->{x}}</v>", "{<!-- c -->{ a }}", "<v>{{ a }}{<!-- c -->{</v>"]
         snippets.extend(extra)
     # ---- B: snippets, original vs printed
     if snippets:
